@@ -1,6 +1,6 @@
 (* C36 — property theorems only: each closed by [exact lemma], followed by Print Assumptions. *)
 From Coq Require Import List NArith ZArith Bool Sorted.
-From Verif Require Import Common.GoStr C36.Model C36.Proof C36.Proof2 C36.Examples.
+From Verif Require Import Common.GoStr C36.Model C36.Proof C36.Proof2 C36.Proof3 C36.Examples.
 Import ListNotations.
 
 (* sortUnique as written (sort, then the in-place compaction loop): for every input the result is strictly
@@ -89,6 +89,20 @@ Theorem C36_reassembly : forall e line pos h comps t, (0 <= pos)%Z ->
 Proof. exact complete_line_spec. Qed.
 Print Assumptions C36_reassembly.
 
+(* what is offered after "x." against Go's promotion rule [go_member] (Proof3.v: a method of the type after one
+   automatic dereference, a field of the struct or of a struct embedded at any depth, a method of the type of an
+   embedded field; the ambiguity clause of the Go spec is not part of go_member):
+   soundness for every type, and with the typed prefix *)
+Theorem C36_members_sound : forall t p n, In n (list_fm t p) -> go_member t n /\ prefixb p n = true.
+Proof. exact list_fm_prefix_sound. Qed.
+Print Assumptions C36_members_sound.
+
+(* completeness when the struct types reachable through embedded fields are pairwise distinct
+   (then VisitFields' seen-set skips nothing and the fuel bound is never reached) *)
+Theorem C36_members_complete : forall t n, NoDup (emb_ids (deref1 t)) -> go_member t n -> In n (list_fm t []).
+Proof. exact list_fm_complete. Qed.
+Print Assumptions C36_members_complete.
+
 (* ---------------- non-vacuity on a concrete state (Examples.v) ---------------- *)
 From Coq Require Import String.
 Example C36_ex_word : complete_line ex_env (s "x + fo + 1") 6 = (s "x + ", [s "foo1"; s "fooF"; s "for"], s " + 1").
@@ -116,3 +130,12 @@ Proof. vm_compute. reflexivity. Qed.
 (* TailIdentifier as written skips one leading digit only: "x 12" gives "2", no name starts with it *)
 Example C36_ex_digits : tail_identifier (s "x 12") = s "2" /\ complete_line ex_env (s "x 12") 4 = (s "x 12", [], []).
 Proof. vm_compute. split; reflexivity. Qed.
+(* the hypothesis of C36_members_complete holds for the example type, and go_member is inhabited by a method
+   promoted through an embedded pointer *)
+Example C36_ex_distinct : NoDup (emb_ids tT) /\ go_member (TPtr tT) (s "I3pm") /\ ~ In (s "Im") (list_fm tT []).
+Proof.
+  split; [|split].
+  - vm_compute. repeat constructor; simpl; intuition discriminate.
+  - apply list_fm_sound. vm_compute. intuition.
+  - vm_compute. intuition discriminate.
+Qed.
